@@ -1,7 +1,7 @@
 """Reference ADUs per transport framing (Modbus Messaging on TCP/IP v1.0b section 3.1, Modbus over Serial Line
 v1.02 sections 2.5.1 / 2.5.2; TLS = bare PDU as in MODBUS/TCP Security; 'binary' is pymodbus' own
 '{' unit fc payload-with-doubled-delimiters crc '}' framing as documented in its framer docstring)."""
-from engine.hlib import crc16, hex2
+from engine.hlib import lohi, crc16, hex2
 
 FRAMERS = ["tcp", "rtu", "ascii", "binary", "tls"]
 
@@ -22,7 +22,7 @@ def ref_adu(framing, pdu, unit, tidb=b"\x00\x00", pidb=b"\x00\x00"):
     if framing == "rtu":
         body = bytes([unit]) + pdu
         c = crc16(body)
-        return body + bytes([c % 256, c // 256])
+        return body + bytes(lohi(c))
     if framing == "ascii":
         body = bytes([unit]) + pdu
         s = 0
@@ -38,7 +38,7 @@ def ref_adu(framing, pdu, unit, tidb=b"\x00\x00", pidb=b"\x00\x00"):
         # (delimiter bytes inside the frame are doubled by the sender; this reference is for frames without them)
         body = bytes([unit]) + pdu
         c = crc16(body)
-        return b"{" + body + bytes([c % 256, c // 256]) + b"}"
+        return b"{" + body + bytes(lohi(c)) + b"}"
     raise ValueError(framing)
 
 
